@@ -25,6 +25,9 @@ type C10OpenRound struct {
 	Reopen  bool   `json:"reopen,omitempty"` // the id is opened and closed once before the round (re-open after Close)
 	Frames  int    `json:"frames"`           // frames the peer writes; frame i is read through handle i mod k
 	Back    int    `json:"back,omitempty"`   // frames written through the handles (frame j through handle j mod k), read by the peer
+	// Ghost > 0: before the id is opened at Side the peer writes one frame of this many bytes
+	// to it (dropped by design; a barrier makes sure it was dispatched before the Open)
+	Ghost int `json:"ghost,omitempty"`
 }
 
 func genRounds(t *rapid.T, qlen int) []C10OpenRound {
@@ -38,9 +41,10 @@ func genRounds(t *rapid.T, qlen int) []C10OpenRound {
 			Reopen:  rapid.IntRange(0, 2).Draw(t, "reopen") == 0,
 			Frames:  rapid.IntRange(1, min(6, qlen)).Draw(t, "frames"),
 			Back:    rapid.IntRange(0, min(3, qlen)).Draw(t, "back"),
+			Ghost:   rapid.SampledFrom([]int{0, 0, 0, 1, 20, 64, 300, 5000}).Draw(t, "ghost"),
 		}
 	})
-	return rapid.SliceOfN(g, 20, tierPick(40, 50)).Draw(t, "open_rounds")
+	return rapid.SliceOfN(g, 20, tierPick(30, 50)).Draw(t, "open_rounds")
 }
 
 // acquireConcurrently lets len(methods) goroutines, released together, acquire the handle of id
@@ -128,19 +132,7 @@ func timedRead(c net.Conn, buf []byte) (rwResult, bool) {
 // runOpenRounds executes the barrier rounds on fresh ids. It returns a verdict ("" = fine),
 // whether the verdict is a stall (to be confirmed by re-execution) and how many rounds ended
 // with all acquirers holding the same handle.
-func runOpenRounds(c C10Case, p *muxPair) (string, bool, int) {
-	used := map[uint32]bool{}
-	for _, id := range c.IDs {
-		used[id] = true
-	}
-	next := uint32(1000)
-	fresh := func() uint32 {
-		for used[next] || next == 0 {
-			next++
-		}
-		used[next] = true
-		return next
-	}
+func runOpenRounds(c C10Case, p *muxPair, alloc *idAllocator) (string, bool, int) {
 	bp := getBuf()
 	defer putBuf(bp)
 	buf := *bp
@@ -149,7 +141,7 @@ func runOpenRounds(c C10Case, p *muxPair) (string, bool, int) {
 		if len(rd.Methods) < 1 || rd.Side < 0 || rd.Side > 1 {
 			continue
 		}
-		id := fresh()
+		id := alloc.fresh()
 		S, P := rd.Side, 1-rd.Side
 		where := fmt.Sprintf("round %d (id=%d, mux %d, acquirers %q, reopen=%v)", ri, id, S, rd.Methods, rd.Reopen)
 		if rd.Reopen {
@@ -158,6 +150,31 @@ func runOpenRounds(c C10Case, p *muxPair) (string, bool, int) {
 				return fmt.Sprintf("%s: first Open returned (%v, %v)", where, h0, err), false, same
 			}
 			_ = h0.Close()
+		}
+		var peer net.Conn
+		if rd.Ghost > 0 {
+			var err error
+			if peer, err = p.m[P].Open(multiplex.ConnID(id)); err != nil || peer == nil {
+				return fmt.Sprintf("%s: Open on the peer returned (%v, %v)", where, peer, err), false, same
+			}
+			d := payloadDesc{Conn: ri, Dir: P, Writer: 9, Seq: 0, Len: rd.Ghost, ID: id}
+			b := make([]byte, d.Len)
+			d.fill(b)
+			if n, err := peer.Write(b); err != nil || n != len(b) {
+				return fmt.Sprintf("%s: Write of %d bytes to the id not open at the receiver returned (%d, %v)", where, len(b), n, err), false, same
+			}
+			// barrier on the first connection of the case: once its marker has arrived the frame
+			// above has been dispatched (dropped) by the receiving mux
+			if _, err := p.conns[P][0].Write([]byte{0xA5}); err != nil {
+				return fmt.Sprintf("%s: barrier Write returned %v", where, err), false, same
+			}
+			r, ok := timedRead(p.conns[S][0], buf)
+			if !ok {
+				return fmt.Sprintf("%s: incomplete: the barrier frame written to id=%d was not delivered within %v", where, c.IDs[0], c10StallAfter), true, same
+			}
+			if r.err != nil || r.n != 1 || buf[0] != 0xA5 {
+				return fmt.Sprintf("%s: barrier read on id=%d returned (%d bytes, %v) instead of the 1 byte written", where, c.IDs[0], r.n, r.err), false, same
+			}
 		}
 		handles, bad, stall := acquireConcurrently(p.m[S], id, rd.Methods)
 		if bad != "" {
@@ -172,13 +189,15 @@ func runOpenRounds(c C10Case, p *muxPair) (string, bool, int) {
 		if identical {
 			same++
 		}
-		peer, err := p.m[P].Open(multiplex.ConnID(id))
-		if err != nil || peer == nil {
-			return fmt.Sprintf("%s: Open on the peer returned (%v, %v)", where, peer, err), false, same
+		if peer == nil {
+			var err error
+			if peer, err = p.m[P].Open(multiplex.ConnID(id)); err != nil || peer == nil {
+				return fmt.Sprintf("%s: Open on the peer returned (%v, %v)", where, peer, err), false, same
+			}
 		}
 		k := len(handles)
 		// peer -> id: frame i is read through handle i mod k, one after the other
-		frames := min(max(rd.Frames, 0), c.QLen)
+		frames := min(max(rd.Frames, 0), c.minQLen())
 		for i := 0; i < frames; i++ {
 			d := payloadDesc{Conn: ri, Dir: P, Writer: 3, Seq: i, Len: 4 + 7*i, ID: id}
 			b := make([]byte, d.Len)
@@ -203,7 +222,7 @@ func runOpenRounds(c C10Case, p *muxPair) (string, bool, int) {
 			}
 		}
 		// id -> peer: frame j is written through handle j mod k
-		back := min(max(rd.Back, 0), c.QLen)
+		back := min(max(rd.Back, 0), c.minQLen())
 		for j := 0; j < back; j++ {
 			d := payloadDesc{Conn: ri, Dir: S, Writer: 3, Seq: j, Len: 9 + 5*j, ID: id}
 			b := make([]byte, d.Len)
